@@ -17,7 +17,7 @@ UNITS = {
     "blake2": {"driver": "Blake2", "harness": "ops_blake2", "gens": "blake2",
                "props": {"C01": ["CxVerif.Props.C01.Blake2"], "C02": ["CxVerif.Props.C02.Blake2"], "C20": ["CxVerif.Props.C20.Blake2"]}},
     "fe64": {"driver": "Fe64", "harness": "ops_fe64", "gens": "fe64",
-             "props": {"C12": ["CxVerif.Props.C12.X25519", "CxVerif.Props.C12.Symmetry"], "C15": ["CxVerif.Props.C15.Fe64", "CxVerif.Props.C15.KernelTieFe64"]}},
+             "props": {"C12": ["CxVerif.Props.C12.X25519", "CxVerif.Props.C12.Symmetry", "CxVerif.Props.C12.Final"], "C15": ["CxVerif.Props.C15.Fe64", "CxVerif.Props.C15.KernelTieFe64"]}},
     "poly1305": {"driver": "Poly1305", "harness": "ops_poly1305", "gens": "poly1305",
                  "props": {"C05": ["CxVerif.Props.C05.Poly1305", "CxVerif.Props.C05.KernelTie"], "C09": ["CxVerif.Props.C09.Poly1305"]}},
     "scalar64": {"driver": "Scalar64", "harness": "ops_scalar64", "gens": "scalar64", "props": {"C15": ["CxVerif.Props.C15.Scalar64", "CxVerif.Props.C15.KernelTieScalar64"]}},
@@ -30,7 +30,7 @@ UNITS = {
     "stream": {"driver": "Stream", "harness": "ops_stream", "gens": "stream",
                "props": {"C03": ["CxVerif.Props.C03.Stream"], "C04": ["CxVerif.Props.C04.Stream"], "C16": ["CxVerif.Props.C16.ChaCha"]}},
     "ed25519": {"driver": "Ed25519", "harness": "ops_ed25519", "gens": "ed25519",
-                "props": {"C13": ["CxVerif.Props.C13.Ed25519"], "C14": ["CxVerif.Props.C14.Ed25519"], "C15": ["CxVerif.Props.C15.Ge", "CxVerif.Props.C15.GroupLaw"]}},
+                "props": {"C13": ["CxVerif.Props.C13.Ed25519", "CxVerif.Props.C13.Final"], "C14": ["CxVerif.Props.C14.Ed25519"], "C15": ["CxVerif.Props.C15.Ge", "CxVerif.Props.C15.GroupLaw", "CxVerif.Props.C15.Prime", "CxVerif.Props.C15.Final"]}},
     "argon2": {"driver": "Argon2", "harness": "ops_argon2", "gens": "argon2", "props": {"C11": ["CxVerif.Props.C11.Argon2", "CxVerif.Props.C11.Argon2Full"]}},
     "aead": {"driver": "Aead", "harness": "ops_aead", "gens": "aead",
              "props": {"C06": ["CxVerif.Props.C06.Aead"], "C07": ["CxVerif.Props.C07.Aead"], "C20": ["CxVerif.Props.C20.Aead"]}},
